@@ -29,7 +29,7 @@ MANIFEST_ENTRY = {
     "SecurityBase.allocate body satisfies the C05 clauses (budget within the code's own isclose tolerance or largest whole unit, close-out, zero amount, refusal on bad price) "
     "and books exactly one transact(q) and nothing else; the sizing search is cut at an inductive invariant, so the proof is unbounded in the number of iterations.",
     "level_note": "Reals instead of floats (A-REAL); commission uninterpreted; termination of the search and absence of its three guard exceptions are not proved (bounded stand-in c05_sizing on the real code only); "
-    "rounding that lands exactly on minus the position (close-out coincidence) is excluded from the budget clause and tracked as a known finding.",
+    "the clause 'nothing is traded only when no unit fits' is proved for the exits before the search and refuted only inside the recorded region of known finding C05-sub-unit-negative-amount-raises-nothing; a search that ends at q == 0 is covered by the bounded stand-in only.",
     "technique": "contract-based deductive verification: VCs from the real AST (pyvc) + z3/cvc5; loop invariant on the sizing search",
 }
 
@@ -40,3 +40,28 @@ def replay(o):
     from pyvc.concrete import replay_scenario
 
     return replay_scenario(o)
+
+
+KNOWN_WITNESS_SRC = """
+import json, warnings
+import numpy as np, pandas as pd
+warnings.filterwarnings("ignore")
+import bt
+from bt.core import Security, Strategy
+idx = pd.date_range("2021-01-04", periods=2)
+data = pd.DataFrame({"a": [294.1, 294.1]}, index=idx)
+s = Strategy("s", [], children=[Security("a")]); s.setup(data); s.adjust(1e6); s.update(idx[0])
+a = s["a"]; c0 = s.capital
+a.allocate(-1.0243); s.update(idx[0])
+print("JSON:" + json.dumps(dict(still=(a.position == 0 and s.capital == c0), position=float(a.position))))
+"""
+
+
+def known_witness(f):
+    if f["id"] != "C05-sub-unit-negative-amount-raises-nothing":
+        return None
+    from pyvc.replay import Scratch
+
+    with Scratch() as sc:
+        d = sc.run_json(KNOWN_WITNESS_SRC, timeout=120)
+    return bool(d.get("still"))
